@@ -80,7 +80,10 @@ fn build_record(spec: RecSpec, key: &CombinedKey, c: &Mutex<HashMap<RecSpec, Enr
     b.seq(spec.seq);
     if let Some((ip, port)) = spec.ip4 {
         b.ip4(Ipv4Addr::from(ip));
-        b.udp4(port);
+        // port 0 = a record that carries an IPv4 address but no UDP port
+        if port != 0 {
+            b.udp4(port);
+        }
     }
     if let Some((ip, port)) = spec.ip6 {
         b.ip6(Ipv6Addr::from(ip));
